@@ -54,7 +54,7 @@ ASSUMPTIONS = [
     'the model\'s int() is narrower than Python\'s (sign + ASCII digits)',
 ]
 HEADER = ('From Coq Require Import List NArith ZArith Bool String Ascii '
-          'PrimFloat.\nFrom T4V Require Import Base.Str Base.Scalar '
+          'PrimFloat Uint63.\nFrom T4V Require Import Base.Str Base.Scalar '
           'C15.Model C15.Canon C15.Exec.\nOpen Scope string_scope.\n')
 
 
@@ -109,6 +109,7 @@ def readings(tok):
     return None if all(v is None for v in out) else out
 
 
+AST_CACHE = {}  # repr(get_ast(text)) per geometry text (table of the model's getast)
 COV = None      # line-coverage tracer, active only around the tied calls
 
 
@@ -176,10 +177,12 @@ class ImplDeck:
         for _, (_, geom, _) in self.parsed.items():
             if geom in self.ast:
                 continue
-            try:
-                self.ast[geom] = repr(get_ast(geom))
-            except Exception:                  # pylint: disable=broad-except
-                self.ast[geom] = None
+            if geom not in AST_CACHE:
+                try:
+                    AST_CACHE[geom] = repr(get_ast(geom))
+                except Exception:              # pylint: disable=broad-except
+                    AST_CACHE[geom] = None
+            self.ast[geom] = AST_CACHE[geom]
         toks = set()
         optstrings = [opts for (_, _, opts) in self.parsed.values()]
         # the options a LIKE card ends up with (every chain, harness side)
@@ -256,8 +259,32 @@ class ImplDeck:
                         self.norm.append((key, ('err', exc_class(exc))))
 
 
+def pack(text):
+    '''Exec.U literal: 9 characters per int63, 7 bits each, low bits first.'''
+    ints = []
+    for k in range(0, len(text), 9):
+        val = 0
+        for i, ch in enumerate(text[k:k + 9]):
+            code = ord(ch)
+            if not 0 < code < 128:
+                raise ValueError(f'pack: character {ch!r}')
+            val |= code << (7 * i)
+        ints.append(str(val))
+    return '(U [' + '; '.join(ints) + ']%uint63)'
+
+
+assert pack('') == '(U []%uint63)' and pack('a') == '(U [97]%uint63)' \
+    and pack('12345678') == '(U [31768959712549169]%uint63)' \
+    and pack('1234567890') == '(U [4139051819874441521; 48]%uint63)'
+
+
+def cs(text):
+    '''Short strings as literals, long ones packed.'''
+    return cstr(text) if len(text) < 4 else pack(text)
+
+
 def coq_card(card):
-    return cpair(cstr(card[0]), cstr(card[1]), cstr(card[2]))
+    return cpair(cs(card[0]), cs(card[1]), cs(card[2]))
 
 
 def coq_fl(vals):
@@ -285,21 +312,21 @@ def coq_cell(cell):
     filltr = 'None' if cell.filltr is None else f'(Some {coq_fl(cell.filltr)})'
     lat = 'None' if cell.lattice is None else f'(Some {cz(cell.lattice)})'
     return ('(mkCell ' + ' '.join([
-        cstr(cell.materialID), copt(cell.density, cstr),
-        cstr(repr(cell.geometry)), cfloat(cell.importance),
+        cs(cell.materialID), copt(cell.density, cs),
+        cs(repr(cell.geometry)), cfloat(cell.importance),
         cz(cell.universe), fill, filltr, lat, trcl]) + ')')
 
 
 def coq_case(obs):
-    num = clist(cpair(cstr(t), cpair(copt(r[0], cfloat), copt(r[1], cz),
+    num = clist(cpair(cs(t), cpair(copt(r[0], cfloat), copt(r[1], cz),
                                      copt(r[2], cz)))
                 for t, r in obs.num.items())
     trs = clist(cpair(cz(k), coq_fl(v)) for k, v in obs.transforms.items())
     norm = clist(cpair(coq_fl(k), (f'Ok {coq_fl(v[1])}' if v[0] == 'ok'
                                    else f'Err {v[1]}'))
                  for k, v in obs.norm)
-    nf = clist(cpair(cstr(k), cstr(v)) for k, v in obs.nf.items())
-    ast = clist(cpair(cstr(k), copt(v, cstr)) for k, v in obs.ast.items())
+    nf = clist(cpair(cs(k), cs(v)) for k, v in obs.nf.items())
+    ast = clist(cpair(cs(k), copt(v, cs)) for k, v in obs.ast.items())
     lat = clist(cpair(cz(k), coq_bounds(list(v.bounds)))
                 for k, v in obs.lattice_params.items())
     tables = (f'(mkTables {num} {trs} {norm} {nf} {ast} '
@@ -365,14 +392,25 @@ def diff_cells(obs_a, obs_b, ignore_importance=(), ignore_density=()):
     return diffs
 
 
-def sweep_deck(res, deck, text, rng, do_points):
+class _NoConv:
+    ok = False
+    exc = 'not-run'
+    text = None
+
+
+def sweep_deck(res, deck, text, rng, do_points, do_files=True):
     '''Property-level check of one generated deck.  Returns the list of
-    (kind, description, cls) failures.'''
+    (kind, description, cls) failures.  do_files=False: only the parsed cells
+    are compared (quick tier, every second deck).'''
     failures = []
     expanded = gen.expand(deck)
     text_exp = gen.render(expanded)
-    conv_like = impl.convert(text, keep_stdout=False)
-    conv_exp = impl.convert(text_exp, keep_stdout=False)
+    if do_files or do_points:
+        conv_like = impl.convert(text, keep_stdout=False)
+        conv_exp = impl.convert(text_exp, keep_stdout=False)
+        res.count('sweep:files')
+    else:
+        conv_like = conv_exp = _NoConv()
     if conv_like.ok != conv_exp.ok or \
             (not conv_like.ok and conv_like.exc != conv_exp.exc):
         failures.append(('file', f'LIKE deck: {conv_like}; explicit '
@@ -683,9 +721,9 @@ def run(res, tier, seed, proofs_ok):
 def _run(res, tier, seed, proofs_ok):
     rng = random.Random(seed)
     quick = tier == 'quick'
-    n_valid = 150 if quick else 1200
-    n_dec = 16 if quick else 120
-    n_edge = 160 if quick else 1200
+    n_valid = 400 if quick else 2400
+    n_dec = 48 if quick else 240
+    n_edge = 560 if quick else 2400
     n_points = 40 if quick else 300
     res.rule = (
         'abstract decks: 1-3 explicit level-0 bodies (sphere, box, cylinder, '
@@ -718,7 +756,7 @@ def _run(res, tier, seed, proofs_ok):
     cases, meta = [], []
     split_cases = []
     n_pts_done = 0
-    n_void = 12 if quick else 80
+    n_void = 32 if quick else 160
     for i in range(n_valid + n_dec + n_void):
         decreasing = n_valid <= i < n_valid + n_dec
         voiding = i >= n_valid + n_dec
@@ -748,7 +786,8 @@ def _run(res, tier, seed, proofs_ok):
                     res.count('but:imp:' + ','.join(sorted(val)))
         do_points = n_pts_done < n_points and not decreasing \
             and not voiding
-        failures, obs = sweep_deck(res, deck, text, rng, do_points)
+        failures, obs = sweep_deck(res, deck, text, rng, do_points,
+                                   do_files=(not quick) or i % 2 == 0)
         n_pts_done += do_points
         if do_points:
             res.count('points-decks')
@@ -793,9 +832,22 @@ def _run(res, tier, seed, proofs_ok):
         if i < 2:
             res.sample({'deck': text, 'result': str(obs.result)[:300]})
 
-    bad, errs = common.run_case_files(
-        'c15_deck', HEADER, 'tables * table * out', 'check_deck',
-        cases, chunk=30)
+    # one pass evaluates both ties on every deck (the generated files are
+    # elaborated once); the two checks are re-run apart on the decks that fail
+    both, errs = common.run_case_files(
+        'c15_deck', HEADER, 'tables * table * out',
+        'fun c => check_deck c && check_canon c', cases, chunk=36)
+    bad, bad_canon = [], []
+    if both:
+        sub, errs2 = common.run_case_files(
+            'c15_deck1', HEADER, 'tables * table * out', 'check_deck',
+            [cases[k] for k in both], chunk=36)
+        bad = [both[k] for k in sub]
+        sub, errs3 = common.run_case_files(
+            'c15_canon1', HEADER, 'tables * table * out', 'check_canon',
+            [cases[k] for k in both], chunk=36)
+        bad_canon = [both[k] for k in sub]
+        errs = errs + errs2 + errs3
     res.obligation(f'tie:deck ({len(cases)} decks: model parse_all = '
                    'ParseMCNPCell.parse())', not bad and not errs,
                    f'{len(bad)} disagreements {errs[:1]}')
@@ -815,12 +867,8 @@ def _run(res, tier, seed, proofs_ok):
                       found_input=False)
 
     # ---- 2b. the explicit card constructed in the model ----
-    csel = list(range(len(cases))) if not quick else \
-        [k for k in range(len(cases)) if k % 2 == 0]
-    bad, errs = common.run_case_files(
-        'c15_canon', HEADER, 'tables * table * out', 'check_canon',
-        [cases[k] for k in csel], chunk=30)
-    bad = [csel[k] for k in bad]
+    csel = list(range(len(cases)))
+    bad = bad_canon
     res.obligation(f'tie:canon ({len(csel)} decks: for every card, the '
                    'explicit card built by Canon.canon_card — word level and '
                    'as text — parses in the model to the cell of the LIKE '
@@ -837,7 +885,7 @@ def _run(res, tier, seed, proofs_ok):
     # informational (how often the construction is defined): on a sample in
     # the quick tier, on everything in the thorough tier
     sample = list(range(len(cases))) if not quick else \
-        [k for k in range(len(cases)) if k % 4 == 0]
+        [k for k in range(len(cases)) if k % 8 == 0]
     und_s, errs = common.run_case_files(
         'c15_canondef', HEADER, 'tables * table * out', 'canon_defined',
         [cases[k] for k in sample], chunk=30)
